@@ -26,6 +26,34 @@ CLAIMED = {
              "the current utterance only, and `started` with a three-line model after every call.",
         note="Trusted: the constructor is deterministic (twins are built from the same configuration); dtype of empty "
              "results is not compared."),
+    "C09": dict(
+        engine="clisim", level="exploration", design="DESIGN.md section 4, C09",
+        technique="deterministic simulation of a batch job: both command-line tools run in forked children over seeded "
+                  "corpora with poison records at arbitrary positions, seeded ambient RNG state / config syntax / "
+                  "simulated worker interleavings; conservation + per-record value oracle against a reference pipeline "
+                  "of explicitly constructed library objects",
+        text="Weakest fit of the claimed properties (stated in DESIGN.md): mostly a functional equivalence. The "
+             "simulator contributes the stream-of-records view - poison records (too short, rate mismatch, channel out "
+             "of range) must be skipped without disturbing neighbours, every other id stored exactly once, exit code - "
+             "and an environment that differs between the two runs of every scenario (ambient RNG, inline/JSON/YAML "
+             "config, worker count and interleaving), which must not change a byte under --seed. Values are compared "
+             "with a reference pipeline to float32 precision.",
+        note="Trusted: pydrobert-kaldi tables, torch.save/load, the /verif reference pipeline (built from the library's "
+             "own explicitly constructed objects, so a defect shared by NumPy computer and reference is invisible here)."),
+    "C10": dict(
+        engine="clisim", level="fault_enumeration", design="DESIGN.md section 4, C10 and appendix B",
+        technique="deterministic simulation with crash injection: the tool runs in a forked child under a sys.settrace "
+                  "line-event scheduler; hard kill (os._exit) / soft interrupt (KeyboardInterrupt) at every traced line "
+                  "event of three base scenarios, torn in-flight files, multi-crash/resume sequences, simulated worker "
+                  "pool interleavings; golden uninterrupted run as reference",
+        text="Every Python-level interruption point (tool function, dataset __getitem__, sampled lines of "
+             "torch/serialization.py) of three base scenarios is used once as a hard-kill and once as a soft-interrupt "
+             "point, plus torn writes of every feature file at 8 lengths, each followed by one fault-free re-run that "
+             "must reproduce the golden directory byte for byte; manifest invariants are checked on the durable state "
+             "right after every crash. Seeded scenarios add multi-crash sequences, worker counts and interleavings, "
+             "prefix ids, buffer sizes, stale directories.",
+        note="Kill/interrupt semantics (written bytes survive), not power loss. The worker pool is a model of DataLoader "
+             "(appendix B). Exhaustive only over the Python-level interruption points of the base scenarios."),
     "C11": dict(
         engine="iosim", level="exploration", design="DESIGN.md section 4, C11",
         technique="deterministic simulation with storage fault injection: seeded truncation / bit flips / zero-fill / "
@@ -94,8 +122,6 @@ NOT_APPLICABLE = {
 }
 
 PENDING = {
-    "C09": "clisim engine not finished yet (simulation target per DESIGN.md section 4; not claimed until its check exists)",
-    "C10": "clisim engine not finished yet (simulation target per DESIGN.md section 4; not claimed until its check exists)",
 }
 
 
